@@ -87,7 +87,7 @@ class Project:
         self.package_description: str = utils.remove_string_escapes(
             f"A client library for accessing {self.openapi.title}"
         )
-        self.version: str = config.package_version_override or openapi.version
+        self.version: str = utils.remove_string_escapes(config.package_version_override or openapi.version)
 
         self.env.filters.update(TEMPLATE_FILTERS)
         self.env.globals.update(
